@@ -228,6 +228,12 @@ def run(ctx):
     if not ctx.quick:
         small = ['r_hill', 'r_gdelay', 'rule', 'rule_dt', 'setp', 'init', 'iface', 'sim_ssa', 'sim_det', 'sim_iface']
         hists += list(itertools.product(small, repeat=5))
+        deep = ['r_gdelay', 'rule_dt', 'init', 'sim_ssa', 'sim_det']
+        hists += list(itertools.product(deep, repeat=6)) + [h for h in itertools.product(deep[1:], repeat=7)]
+    else:
+        # deeper than the general bound over small sub-alphabets (a third / fourth initialisation, a fifth simulation)
+        deep = ['r_gdelay', 'rule_dt', 'init', 'sim_ssa', 'sim_det', 'setp']
+        hists += list(itertools.product(deep, repeat=4)) + list(itertools.product(deep[1:5], repeat=5)) + list(itertools.product(['rule_dt', 'init', 'sim_det'], repeat=6))
     pmap(check, hists, ctx, nshards=512)
     ctx.bounds = dict(history_length=L, alphabet=OPS, histories=len(hists))
     ctx.rule = ('E3: every operation sequence up to the length bound over {add species; add a mass-action / proportional-Hill (named parameters) / '
@@ -238,7 +244,7 @@ def run(ctx):
                 'the deterministic trajectory, dictionaries and both matrices must equal those of a model built at once from the shadow '
                 'definition (bit-equal; deterministic rounded to 1e-9); seeding and simulating twice must agree; the dictionaries read before '
                 'and after every simulate operation must be identical. Histories are not merged (the hidden C-level state is what is under '
-                'test); thorough adds length-5 histories over a 9-letter sub-alphabet. states = histories.')
+                'test); quick adds length 4 over a 6-letter, length 5 over a 4-letter and length 6 over a 3-letter sub-alphabet; thorough adds length 5 over a 10-letter, length 6 over a 5-letter and length 7 over a 4-letter sub-alphabet. states = histories.')
     ctx.assumptions = ['a species that was never given a value reads -1 until the first initialisation defaults it to 0; both are read as 0', 'no rule assigns a parameter (premise of the property)', 'an interface that predates an edit is not driven']
 
 
